@@ -369,7 +369,7 @@ def addBond (adj : List (Nat × List (Nat × Bond))) (n k : Nat) (b : Bond) :
   else match adj.lookup n, adj.lookup k with
     | some _, some kn =>
       if kn.any (·.1 == n) then .error .mapping
-      else .ok (adj.map fun (x, nb) => if x == n then (x, nb ++ [(k, b)]) else if x == k then (x, nb ++ [(n, b)]) else (x, nb))
+      else .ok (adj.map fun (x, nb) => (x, if x = n then nb ++ [(k, b)] else if x = k then nb ++ [(n, b)] else nb))
     | _, _ => .error .atomNotFound
 
 /-- the bond loop: builds the adjacency and collects `cis_trans_stereo` -/
